@@ -1,7 +1,8 @@
 ------------------------------ MODULE QuerySem ------------------------------
 (* Executable reference semantics of the shared read-query core (C08; reused by C09 / C10 / C11):
    path patterns with labels, edge types and directions; Kleene three-valued WHERE; projections;
-   DISTINCT; count / sum / min / max with implicit grouping; ORDER BY with SKIP / LIMIT; one OPTIONAL MATCH.
+   DISTINCT; count / sum / min / max with implicit grouping; ORDER BY with SKIP / LIMIT; one OPTIONAL MATCH;
+   variable-length edge patterns (walks of a..b edges).
    A query is "enumerate all bindings of the pattern in the graph, apply the clauses in order".
    The module is language neutral: the harness renders one abstract query into GQL, Cypher, ... and
    logs [g: graph, q: abstract query, rows: what the engine returned]; TLC evaluates Expected(g, q)
@@ -68,12 +69,28 @@ Steps(g, ep, from) ==
 Ext(f, k, v) == [x \in DOMAIN f \cup {k} |-> IF x = k THEN v ELSE f[x]]
 NB(id) == [k |-> "n", id |-> id]
 EB(id) == [k |-> "e", id |-> id]
+\* variable-length edge pattern [min |-> a, max |-> b]: a walk of a..b edges (each of the pattern's types and direction;
+\* edges and nodes may repeat).  Walks are sequences of edge ids, so two different walks between the same end nodes are two
+\* matches.  Walks(g, ep, from, k): set of <<edge sequence, end node>> for walks of exactly k edges.
+IsVarLen(ep) == "min" \in DOMAIN ep
+RECURSIVE Walks(_, _, _, _)
+Walks(g, ep, from, k) ==
+  IF k = 0 THEN {<<<<>>, from>>}
+  ELSE UNION { { <<Append(w[1], st[1]), st[2]>> : st \in Steps(g, ep, w[2]) } : w \in Walks(g, ep, from, k - 1) }
+VarSteps(g, ep, from) == UNION { Walks(g, ep, from, k) : k \in ep.min..ep.max }
 RECURSIVE MatchFrom(_, _, _, _)
 \* S: set of [b: binding, cur: node id]
 MatchFrom(g, path, i, S) ==
   IF i > Len(path) THEN S
   ELSE LET ep == path[i]  np == path[i + 1]
-           S2 == UNION { { [b |-> Ext(Ext(m.b, ep.var, EB(st[1])), np.var, NB(st[2])), cur |-> st[2]]
+           S2 == IF IsVarLen(ep)
+                 THEN \* the edge variable of a variable-length pattern is bound to the walk (never projected by the generator)
+                      UNION { { [b |-> Ext(Ext(m.b, ep.var, [k |-> "w", id |-> st[1]]), np.var, NB(st[2])), cur |-> st[2]]
+                                : st \in {x \in VarSteps(g, ep, m.cur) :
+                                            /\ NodeOk(g, np, x[2])
+                                            /\ (np.var \in DOMAIN m.b => m.b[np.var] = NB(x[2]))} }
+                              : m \in S }
+                 ELSE UNION { { [b |-> Ext(Ext(m.b, ep.var, EB(st[1])), np.var, NB(st[2])), cur |-> st[2]]
                            : st \in {x \in Steps(g, ep, m.cur) :
                                        /\ NodeOk(g, np, x[2])
                                        /\ (np.var \in DOMAIN m.b => m.b[np.var] = NB(x[2]))
